@@ -54,6 +54,11 @@ CLAIMED = {
   note="Trusted: gowp, go/ssa, solvers; strings.Count/LastIndex per documentation; ottoError.describe (fmt) trusted; compiled node trees immutable (proved syntactically as a frame obligation).",
   technique="contract-based deductive verification: loop invariants for the trace limit, at_call state assertions, postconditions over go/ssa VCs discharged by z3/cvc5",
   ref="6 C19"),
+ "C15": dict(
+  text="Proof for the scalar core of the Go <-> JavaScript value bridge: toValue carries every supported scalar over unchanged (bool, the ten integer types, float64 and string keep dynamic type and bits; float32 is widened exactly; nil is undefined; a Value is itself; *object becomes an object value) and every number it produces - also through the reflection arm, e.g. for named numeric types - carries a payload type the number kernels accept; Value.export returns the payload of a primitive unchanged, so export(toValue(x)) == x for those scalars follows from the two contracts; Value.number/float64/bool (ToInteger saturating, ToNumber, ToBoolean) equal the ES5 conversions for every payload (shared with C05); IsNaN reads the payload; growing a bridged slice copies from the old slice. Containers (export of arrays/objects, typed slices and maps), MarshalJSON and Call equivalence with in-language calls are not covered; the public ToInteger/ToFloat/ToString wrappers recover panics (catchPanic) and are outside the modelled exits.",
+  note="Trusted: gowp, go/ssa, solvers; reflect accessors as assumed library contracts. The round-trip lemma is a two-line consequence of the toValue and export contracts, stated here, not a separate obligation. One defect fixed (named float32 payload).",
+  technique="contract-based deductive verification: per-type postconditions over the interface datatype of go/ssa VCs, discharged by z3/cvc5",
+  ref="6 C15"),
  "C16": dict(
   text="Proof, for every JavaScript number (all doubles and every Go integer payload) and every numeric target kind, that the two numeric conversion kernels of the bridge hand Go exactly the number or fail: convertNumeric (Go function parameters) returns a value of the parameter's kind numerically equal to the number or throws RangeError/TypeError - no truncated fraction, wrap-around or sign change for any of the ten integer widths; Value.toReflectValue (stores into bridged slices, arrays, maps) boxes an integer only when it equals the number (NaN, fractions of either sign, 2^63 and 2^64 are rejected); Value.export returns primitive payloads unchanged; exactly the names starting with A..Z are exported. Element-wise construction of slices/maps/structs, arity checks and method values (all inside reflect) are not covered; failed conversions on container stores surface as Go panics (known finding).",
   note="Trusted: gowp, go/ssa, solvers, amd64 float->int table. The reflect package is an assumed library: ValueOf/Kind/Int/Uint/Float/Zero/OverflowInt/OverflowUint/OverflowFloat/Convert per their documentation (abstract view rv-int/rv-uint/rv-float/rv-kind, listed in the evidence); math.Modf per documentation. One defect fixed (silent truncation in toReflectValue), one recorded.",
